@@ -273,8 +273,8 @@ pub fn gen_op(p: Profile, kinds: &[K], r: &mut Rng) -> Op {
     let access = |r: &mut Rng, n: usize| -> Op {
         match r.below(4) {
             0 => Op::new("read").with("s", s),
-            1 => Op::new("views").with("s", s),
-            2 => Op::new("fmt").with("s", s),
+            1 => Op::new(if matches!(kinds[s], K::Box(0) | K::Slice(..)) { "views" } else { "read" }).with("s", s),
+            2 => Op::new(if matches!(kinds[s], K::Box(0) | K::Pin | K::Slice(..) | K::Arr(_)) { "fmt" } else { "read" }).with("s", s),
             _ => {
                 let extra = if r.chance(1, 8) { 1 } else { 0 };
                 Op::new("write").with("s", s).with("i", r.below(n.max(1) as u64 + extra)).with("x", small_val(r))
@@ -294,7 +294,13 @@ pub fn gen_op(p: Profile, kinds: &[K], r: &mut Rng) -> Op {
                 4 => Op::new("to_any").with("s", s),
                 5 => Op::new(if t == 0 { "into_pin" } else { "to_any" }).with("s", s),
                 6 => access(r, 1),
-                7 => Op::new("cmp").with("a", s).with("b", other_same(r, &|k| matches!(k, K::Box(0)))),
+                7 => {
+                    if t == 0 {
+                        Op::new("cmp").with("a", s).with("b", other_same(r, &|k| matches!(k, K::Box(0))))
+                    } else {
+                        Op::new("read").with("s", s)
+                    }
+                }
                 8 => Op::new("hash").with("s", s),
                 _ => Op::new("ptrfmt").with("s", s),
             }
@@ -308,7 +314,7 @@ pub fn gen_op(p: Profile, kinds: &[K], r: &mut Rng) -> Op {
             0 => drop_op(r, n),
             1 => Op::new("arr_to_slice").with("s", s),
             2 => access(r, n),
-            _ => Op::new("cmp").with("a", s).with("b", other_same(r, &|k| k == K::Arr(n))),
+            _ => Op::new("fmt").with("s", s),
         },
         K::Slice(n, capk) => {
             //  drop toarr raw leak tovec access cmp hash ptr
@@ -316,12 +322,12 @@ pub fn gen_op(p: Profile, kinds: &[K], r: &mut Rng) -> Op {
             match r.weighted(w) {
                 0 => drop_op(r, n),
                 1 => {
-                    let m = if r.chance(3, 5) { n } else { r.below(6) as usize };
+                    let m = if n <= 4 && r.chance(3, 5) { n } else { r.below(6) as usize };
                     Op::new("slice_to_arr").with("s", s).with("n", m)
                 }
                 2 => Op::new("into_raw").with("s", s),
                 3 => Op::new("leak").with("s", s),
-                4 => Op::new(if capk { "slice_to_vec" } else { "slice_to_arr" }).with("s", s).with("n", n),
+                4 => Op::new(if capk { "slice_to_vec" } else { "slice_to_arr" }).with("s", s).with("n", n.min(4)),
                 5 => access(r, n),
                 6 => Op::new("cmp").with("a", s).with("b", other_same(r, &|k| matches!(k, K::Slice(..)))),
                 7 => Op::new("hash").with("s", s),
@@ -360,7 +366,7 @@ pub fn gen_op(p: Profile, kinds: &[K], r: &mut Rng) -> Op {
             0 => Op::new("read").with("s", s),
             1 => Op::new("write").with("s", s).with("i", 0).with("x", small_val(r)),
             2 | 3 => Op::new("from_raw").with("s", s),
-            _ => Op::new("views").with("s", s),
+            _ => Op::new("read").with("s", s),
         },
     }
 }
